@@ -901,6 +901,10 @@ static void run_line(char *line) {
 		uint64_t h = 1469598103934665603ULL; long n = 0; int c;
 		if (fp) { while ((c = fgetc(fp)) != EOF) { h ^= (uint8_t)c; h *= 1099511628211ULL; n++; } fclose(fp); }
 		sb_printf(&s, "{\"e\":\"FileHash\",\"path\":\"%s\",\"n\":%ld,\"h\":\"%016llx\",\"exists\":%s}", ARG(1), n, (unsigned long long)h, fp ? "true" : "false");
+	} else if (!strcmp(op, "absent")) {
+		/* absent path: declares that nothing exists at path (checked) */
+		struct stat sb;
+		sb_printf(&s, "{\"e\":\"Absent\",\"path\":\"%s\",\"exists\":%s}", ARG(1), lstat(ARG(1), &sb) == 0 ? "true" : "false");
 	} else if (!strcmp(op, "symlink")) {
 		int r = symlink(ARG(1), ARG(2));
 		sb_printf(&s, "{\"e\":\"Symlink\",\"target\":\"%s\",\"path\":\"%s\",\"ok\":%s}", ARG(1), ARG(2), r == 0 ? "true" : "false");
